@@ -86,6 +86,11 @@ def trees(tier, seed):
         menu = leaf_menu(tier, gran)
         maxable = [m for m in menu if m[0] in ("c", "w")]
         small = menu[::3] if not th else menu[::2]
+        # the reduced menu must keep one leaf of every kind (constant-time Choose,
+        # variable-time WindowedChoose, Allocation)
+        for kind_ in ("w", "a"):
+            if not any(m[0] == kind_ for m in small):
+                small = small + [next(m for m in menu if m[0] == kind_)]
         for passes in pass_sets:
             if gran > 1 and passes not in ((0, 0, 0), (1, 1, 0)) and not th:
                 continue
@@ -146,6 +151,16 @@ def trees(tier, seed):
                          op("min", "mn", [3, 4]), mk_leaf(a, "A", 1, gran),
                          mk_leaf(b, "B", 1, gran), mk_leaf(c, "C", 1, gran)],
                         tag=f"lt(min,leaf)/{i},{j},{k}")
+                # nested LessThan on either side (a chain of three): the inner one's
+                # start/end are what the outer one orders
+                yield T([op("objective", "obj", [1]), op("lessthan", "lt", [2, 5]),
+                         op("lessthan", "li", [3, 4]), mk_leaf(a, "A", 1, gran),
+                         mk_leaf(b, "B", 1, gran), mk_leaf(c, "C", 1, gran)],
+                        tag=f"lt(lt,leaf)/{i},{j},{k}")
+                yield T([op("objective", "obj", [1]), op("lessthan", "lt", [2, 3]),
+                         mk_leaf(a, "A", 1, gran), op("lessthan", "li", [4, 5]),
+                         mk_leaf(b, "B", 1, gran), mk_leaf(c, "C", 1, gran)],
+                        tag=f"lt(leaf,lt)/{i},{j},{k}")
                 # a leaf shared by two Min parents (STRL DAG)
                 yield T([op("objective", "obj", [1, 2]), op("min", "m1", [3, 4]),
                          op("min", "m2", [3, 5]), mk_leaf(a, "S", 1, gran),
@@ -296,6 +311,25 @@ def tree_features(tree):
     nodes = tree["nodes"]
     g = tree["granularity"]
 
+    def endpoint(i, which):
+        """Start (which=0) or end (which=1) of a sub-expression if it is a constant of
+        the tree, None if a solver variable decides it.  As in LessThanExpression::
+        parse, a LessThan starts with its first child and ends with its second."""
+        n = nodes[i]
+        k = n["kind"]
+        if k in ("choose", "allocation"):
+            return n["start"] + (n["dur"] if which else 0)
+        if k == "lessthan":
+            return endpoint(n["children"][which], which)
+        if k == "scale":
+            return endpoint(n["children"][0], which)
+        if k == "min":
+            vs = [endpoint(c, which) for c in n["children"]]
+            if any(v is None for v in vs):
+                return None
+            return max(vs) if which else min(vs)
+        return None
+
     def dead(i):
         n = nodes[i]
         k = n["kind"]
@@ -305,10 +339,9 @@ def tree_features(tree):
             return False
         cs = [dead(c) for c in n["children"]]
         if k == "lessthan" and not any(cs):
-            a, b = (nodes[c] for c in n["children"])
-            if a["kind"] in ("choose", "allocation") and \
-                    b["kind"] in ("choose", "allocation") and \
-                    a["start"] + a["dur"] > b["start"]:
+            ea = endpoint(n["children"][0], 1)
+            sb = endpoint(n["children"][1], 0)
+            if ea is not None and sb is not None and ea > sb:
                 return True  # fixed times in the wrong order
         if k in ("min", "lessthan"):
             return any(cs)
@@ -326,10 +359,9 @@ def tree_features(tree):
     trivial_lt = False
     for n in nodes:
         if n["kind"] == "lessthan":
-            a, b = (nodes[c] for c in n["children"])
-            if a["kind"] in ("choose", "allocation") and \
-                    b["kind"] in ("choose", "allocation") and \
-                    a["start"] + a["dur"] <= b["start"]:
+            ea = endpoint(n["children"][0], 1)
+            sb = endpoint(n["children"][1], 0)
+            if ea is not None and sb is not None and ea <= sb:
                 trivial_lt = True
     residues = set()
     for n in nodes:
@@ -364,6 +396,15 @@ def explore_tree(tree, drv, out, stats):
     if "error" in dump:
         stats["trees_rejected_by_constructor"] += 1
         return
+    # the back-end's own verdict per node (1 = EXPRESSION_NO_UTILITY): a Min / LessThan
+    # with such a child is the call site of the recorded "dead child" finding, also
+    # when the child only died because an optimisation pass emptied its time window
+    pt = dump.get("parse_types", {})
+    for i, n in enumerate(tree["nodes"]):
+        if n["kind"] in ("min", "lessthan") and \
+                any(pt.get(str(c)) == 1 for c in n["children"]):
+            feats["dead_child_under_min_or_lessthan"] = True
+            feats["dead_child_seen_by_backend"] = True
     H = 12
     model = S.Model(dump["model"], H)
     stats["inactive_rows"] += model.inactive
@@ -459,7 +500,16 @@ def job(item, exe):
     stats = {k: 0 for k in STAT_KEYS}
     batch = item if isinstance(item, list) else [item]
     for tree in batch:
-        explore_tree(tree, drv, out, stats)
+        try:
+            explore_tree(tree, drv, out, stats)
+        except S.DriverHang as e:
+            # compiling / reading back this tree does not terminate in the back-end
+            f = tree_features(tree)
+            v = {"rule": "backend.hang", "msg": f"{tree['tag']}: {e}", "case": tree}
+            v.update(f)
+            out.append(v)
+            drv = S.Driver(exe)
+            _DRV[exe] = drv
     return {"states": stats["solutions"], "transitions": stats["row_evaluations"],
             "validated": stats["solutions"], "evaluations": stats["trees"],
             "stats": stats, "violations": out,
